@@ -1080,6 +1080,7 @@ func BasicMemberlistConfig() *memberlist.Config {
 type membersPool struct {
 	addrs   *util.ShardedMap[string, Member]
 	members *util.ShardedMap[string, []Member] // NOTE by node address
+	l       sync.RWMutex                       // NOTE member lists of node are replaced at once
 }
 
 func newMembersPool() *membersPool {
@@ -1111,6 +1112,9 @@ func (m *membersPool) Get(k *net.UDPAddr) (Member, bool) {
 }
 
 func (m *membersPool) MembersLenOthers(node base.Address, addr *net.UDPAddr) (memberslen, others int, found bool) {
+	m.l.RLock()
+	defer m.l.RUnlock()
+
 	_ = m.members.Get(node.String(), func(members []Member, memberfound bool) error {
 		if !memberfound {
 			return nil
@@ -1140,6 +1144,9 @@ func (m *membersPool) MembersLenOthers(node base.Address, addr *net.UDPAddr) (me
 }
 
 func (m *membersPool) MembersLen(node base.Address) int {
+	m.l.RLock()
+	defer m.l.RUnlock()
+
 	switch i, found := m.members.Value(node.String()); {
 	case !found, i == nil:
 		return 0
@@ -1153,6 +1160,11 @@ func (m *membersPool) Set(member Member) (added bool) {
 
 	_, _, _ = m.addrs.Set(id, func(prev Member, addrfound bool) (Member, error) {
 		added = !addrfound
+
+		// NOTE the member, which is replaced, is moved between the member
+		// lists of node at once
+		m.l.Lock()
+		defer m.l.Unlock()
 
 		if addrfound && prev != nil {
 			// NOTE same addr joined again, or another node took the addr
